@@ -111,7 +111,10 @@ def brute_case(prefix, failing):
 
 SMT_PREFIXES = [(), (("add", "p"),), (("add", "p"), ("push",), ("add", "q")), (("add", "p"), ("solve",))]
 SMT_FAILS = [("add", "q", "assert"), ("add", "q", "declare-fun"), ("is_sat", "q", "assert"), ("is_sat", "q", "check-sat"),
-             ("solve", None, "check-sat"), ("push", None, "push"), ("is_valid", "q", "assert")]
+             ("solve", None, "check-sat"), ("push", None, "push"), ("is_valid", "q", "assert"),
+             # natural refusals (nothing injected): a value asked for while no model is current or for an undeclared
+             # symbol; more levels popped than were pushed
+             ("get_value", "p", None), ("get_value", "q", None), ("pop_too_far", None, None)]
 
 
 def smt_case(prefix, failing):
@@ -145,6 +148,10 @@ def smt_case(prefix, failing):
                         solver.solve()
                     elif failing[0] == "push":
                         solver.push()
+                    elif failing[0] == "get_value":
+                        solver.get_value(F[failing[1]])
+                    elif failing[0] == "pop_too_far":
+                        solver.pop(depth + 1)
                     else:
                         getattr(solver, failing[0])(F[failing[1]])
                 except Exception:
@@ -204,7 +211,7 @@ def run(ctx):
         if twin != got:
             first = next((a, b) for a, b in zip(twin, got) if a != b)
             res.violation("solver", "fault:smtlibsolver.%s@%s=>%s:differs" % (failing[0], failing[2], first[0][0]),
-                          "SmtLibSolver after %s and %s failing with an error reply to %s: %r, without the failing call %r"
+                          "SmtLibSolver after %s and %s failing (error reply to: %s): %r, without the failing call %r"
                           % (list(prefix), failing[0], failing[2], first[1], first[0]),
                           {"part": "solver", "kind": "smt", "prefix": [list(e) for e in prefix], "failing": list(failing)})
 
